@@ -148,6 +148,26 @@ where
     preceded(multispace0, inner)
 }
 
+/// Parses a keyword that consists of several words, such as `BIT STRING`.
+/// The words are separate lexical items (X.680 12), so any white-space
+/// and comments may stand between them.
+pub fn keyword<'a>(
+    words: &'static str,
+) -> impl Parser<Input<'a>, Output = Input<'a>, Error = ErrorTree<'a>> {
+    move |input: Input<'a>| {
+        let mut rest = input.clone();
+        for (i, word) in words.split(' ').enumerate() {
+            rest = if i == 0 {
+                tag(word).parse(rest)?.0
+            } else {
+                skip_ws_and_comments(tag(word)).parse(rest)?.0
+            };
+        }
+        let consumed = nom::Offset::offset(&input, &rest);
+        Ok((rest, input.slice(..consumed)))
+    }
+}
+
 pub fn skip_ws_and_comments<'a, F>(
     inner: F,
 ) -> impl Parser<Input<'a>, Output = F::Output, Error = F::Error>
